@@ -390,3 +390,13 @@ _ADD6 = {
 }
 for _p, _t in _ADD6.items():
     META[_p]['text'] = META[_p]['text'] + _t
+
+_ADD7 = {
+    'C04': ' The quantity comparisons behind the run-state guards on a Duration clock answer False for a NaN operand (comparison rule shared with C01-C03 / C16).',
+    'C10': ' The simulation variants stamp a custom-type observation with the simulator clock and forward native events unchanged (dispatch rule shared with C11).',
+    'C11': ' The dispatch rule follows locals and a re-wrapped event by substitution.',
+    'C13': ' The generator a stream was seeded on is the one it draws from, also for a copy of the stream (private-generator rule shared with C07 / C12).',
+    'C16': ' Every derivation of the unit text of a generic SI value uses the one format the parser reads back (R16.9, sibling agreement).',
+}
+for _p, _t in _ADD7.items():
+    META[_p]['text'] = META[_p]['text'] + _t
